@@ -270,6 +270,62 @@ def run_unit_concrete(unit, values=None, seed=0, samples=1):
   return results
 
 
+def standin_main(argv):
+  """python -m pyvc.driver standin <prop> <name> <tier> <seed>
+  the stand-in function is a generator of (case_id, thunk); thunk() returns None/True when the contract
+  holds, a string describing the failure otherwise (an escaping exception is a failure too)."""
+  prop, name, tier, seed = argv[0], argv[1], argv[2], int(argv[3])
+  load_units(prop)
+  from . import api
+  sd = [x for x in api.STANDINS.get(prop, []) if x.name == name][0]
+  n = 0
+  distinct = set()
+  failures = []
+  samples = []
+  t0 = time.time()
+  for case_id, thunk in sd.fn(tier, seed):
+    n += 1
+    cid = case_id if isinstance(case_id, str) else json.dumps(case_id, default=str)
+    sys.stderr.write("CASE " + cid[:300] + "\n")
+    sys.stderr.flush()
+    distinct.add(cid)
+    if len(samples) < 5:
+      samples.append(cid[:300])
+    try:
+      r = thunk()
+    except BaseException as ex:
+      tb = traceback.extract_tb(ex.__traceback__)
+      r = "raised %s: %s at %s:%s" % (type(ex).__name__, str(ex)[:200], tb[-1].filename if tb else "?",
+                                      tb[-1].lineno if tb else "?")
+    if r is not None and r is not True:
+      failures.append({"case": cid[:2000], "failure": str(r)[:500]})
+      if len(failures) >= 200:
+        break
+  out = {"evaluations": n, "distinct": len(distinct), "failures": failures, "samples": samples,
+         "wall_s": round(time.time() - t0, 2)}
+  sys.stdout.write("PYVC-RESULT " + json.dumps(out) + "\n")
+
+
+def run_standin_subprocess(prop, name, tier, seed, timeout_s):
+  env = dict(os.environ)
+  env["PYTHONPATH"] = VERIF + ":" + REPO
+  cmd = ["timeout", "-k", "5", str(timeout_s), VENV_PY, "-m", "pyvc.driver", "standin", prop, name, tier, str(seed)]
+  try:
+    p = subprocess.run(cmd, capture_output=True, text=True, env=env, cwd=VERIF, timeout=timeout_s + 20)
+  except subprocess.TimeoutExpired as e:
+    return {"status": "timeout", "last_case": None}
+  for line in p.stdout.splitlines():
+    if line.startswith("PYVC-RESULT "):
+      return dict(json.loads(line[len("PYVC-RESULT "):]), status="ok")
+  last = None
+  for line in p.stderr.splitlines():
+    if line.startswith("CASE "):
+      last = line[5:]
+  if p.returncode in (124, 137):
+    return {"status": "timeout", "last_case": last}
+  return {"status": "crash", "stderr": p.stderr[-1500:], "last_case": last}
+
+
 def concrete_main(argv):
   """python -m pyvc.driver conc <prop> <unit> <json-file-or-'-'> <seed> <samples>"""
   prop, unit_name, src, seed, samples = argv[0], argv[1], argv[2], int(argv[3]), int(argv[4])
@@ -307,3 +363,5 @@ if __name__ == "__main__":
   if sys.argv[1] == "conc":
     sys.setrecursionlimit(10000)
     concrete_main(sys.argv[2:])
+  elif sys.argv[1] == "standin":
+    standin_main(sys.argv[2:])
